@@ -3,53 +3,67 @@
    (client objects + bind), gen/Gen_proto.v (add-action table and creation commands,
    regenerated from sc3/synth/node.py on every run).
 
-   [repaired] = the code with the three proposed one-line patches (build/proposed_fixes/C17_*.diff);
+   [repaired] = the code with the proposed patches (build/proposed_fixes/C17_*.diff: free_all, double free,
+   cue argument order, dict embedded as pairs);
    [as_found] = the code as it stands.  The harness compares the implementation with
    [run repaired]; the *_refuted theorems record what is false of the code as found. *)
 From Coq Require Import ZArith QArith List String Bool.
 Import ListNotations.
 Require Import SC3.model.ProtoGrammar SC3.model.Proto SC3.gen.Gen_proto.
-Require Import SC3.proofs.C17_bind SC3.proofs.C17_life SC3.proofs.C17_conform.
+Require Import SC3.proofs.C17_bind SC3.proofs.C17_life SC3.proofs.C17_conform SC3.proofs.C17_run.
 Open Scope string_scope.
 Open Scope Z_scope.
 Open Scope list_scope.
 
 (* ------------------------------------------------------------------------------------ *)
-(* Every message emitted by ANY op sequence conforms to the command reference.
+(* Every message emitted by ANY sequence of well-formed ops conforms to the command reference.
 
-   FULL STATEMENT (not proved; checked on every captured message of every valid history by
-   vm_compute of [conforms], and by the independent grammar harness/oracles/scproto.py):
-     forall ops s, inv s -> Forall (wf_op s..) ops ->
-       Forall (fun step => all_conform (fst step) = true) (fst (run repaired s ops))
-   where wf_op puts every argument list in the documented domain (control = name or index,
-   value = number | bus / buffer / node object | map symbol | nested list of those, ...).
-
-   PROVED: the same statement, by induction over op sequences with a state invariant that
-   includes the messages waiting in open bind() blocks, for the ops whose argument lists
-   have a fixed shape (predicate [fixed_shape], see proofs/C17_conform.v): all constructors of
-   Group / ParGroup / Synth without control arguments, run / free / trace / query / move* /
-   release, group commands, server helpers, Buffer alloc / free / free_all / zero / close /
-   query / get / getn / cue / write, Bus fill / clear / get / getn / free, and bind enter / exit /
-   raise in any nesting. *)
-Theorem emitted_conform_partial : forall ops s,
-  inv s -> forallb fixed_shape ops = true ->
+   [wf_ops n s ops] (proofs/C17_conform.v, C17_run.v) checks each op in the state in which it runs:
+   control = index or name (not "[" / "]"); control value = number | None | bool | bus / buffer /
+   node object | map symbol | list / tuple of those nested at most n deep; set / Synth args =
+   alternating control, value, where a dict stands for its pairs; Synth args may also be None or a
+   dict of scalars; setn values = number or list of numbers; map / mapn buses = int or live Bus;
+   fill / b_set / b_fill / b_gen / c_set... = tokens of the types the reference lists, at least one
+   group; completion messages supplied by the caller are absent or conform themselves; buffers /
+   buses used by commands that do not check "already freed" are live; offsets into a bus stay inside
+   it.  n is arbitrary.  All 60 ops of the model are covered (no fixed-shape restriction). *)
+Theorem emitted_conform : forall n ops L s,
+  Inv L s -> wf_ops n s ops = true ->
   Forall (fun st => all_conform (fst st) = true) (fst (run repaired s ops)).
-Proof. exact run_conform. Qed.
+Proof. exact run_conform_all. Qed.
 
-(* the code as found: Buffer.cue sends leaveOpen = frames *)
-Theorem emitted_conform_refuted : exists ops,
-  forallb fixed_shape ops = true /\
+(* the code as found: Buffer.cue sends leaveOpen = frames; a dict among set() arguments is wrapped
+   in array brackets where a control name is expected *)
+Theorem emitted_conform_refuted_cue : exists ops,
+  wf_ops 2 st0 ops = true /\
   ~ Forall (fun st => all_conform (fst st) = true) (fst (run as_found st0 ops)).
 Proof. exact cue_as_found_does_not_conform. Qed.
 
+Theorem emitted_conform_refuted_dict : exists ops,
+  wf_ops 2 st0 ops = true /\
+  ~ Forall (fun st => all_conform (fst st) = true) (fst (run as_found st0 ops)).
+Proof. exact dict_as_found_does_not_conform. Qed.
+
 (* ------------------------------------------------------------------------------------ *)
-(* ids_only_allocated: NOT PROVED.  Full statement:
-     forall ops s, inv s -> wf ops -> every (kind, id) in [msg_ids w] of every emitted w is an id
-     returned by an allocator oracle of an earlier op and not freed since, an id the caller wrote
-     in the op (TgInt, bufnum=, index=), 0, the default group, or -1 where the reference allows it.
-   [msg_ids] (model/ProtoGrammar.v) is the executable definition of "id mentioned"; the check is
-   done on every captured message of every valid history by the id ledger of harness/props/C17.py
-   (monitor M2), and the creation / free theorems below pin the ids of those commands. *)
+(* Emitted messages mention only ids the client has allocated.
+
+   "mentioned" = [msg_ids] (every field of a node / buffer / bus id type of the grammar, nested
+   completion messages included).  [known L k i] = i is -1 (the reference's placeholder for a
+   server-generated node id / unmap), or k = node and i = 0 (root) or 1 (this client's default
+   group), or (k, i) is in the ledger L.  The ledger starts as given and grows with every op by
+   [op_ids s o]: the ids the allocators returned in that op (oracle fields: node id, buffer block,
+   bus block) and the ids the caller wrote himself (numeric targets, bufnum= / index=, basic_new ids,
+   bus numbers passed to map / mapn, ids inside the completion / raw messages he supplied).  Ids are
+   never removed from the ledger ("has allocated"); the free theorems below say when an id goes back
+   to the allocator.  [ids_in_ledger L s ops]: every id of every message of every event of step i is
+   known with respect to the ledger as it is right after op i. *)
+Theorem ids_only_allocated : forall n ops L s,
+  Inv L s -> wf_ops n s ops = true -> ids_in_ledger L s ops.
+Proof. exact run_ids_all. Qed.
+
+(* the initial state with the empty ledger satisfies the invariant *)
+Theorem initial_state_invariant : Inv [] st0.
+Proof. exact inv_st0. Qed.
 
 (* ------------------------------------------------------------------------------------ *)
 (* Creating an object emits its creation command with the object's own id. *)
@@ -61,11 +75,11 @@ Theorem create_emits_own_id :
   (forall V s nid def args tg act a, target_ok s tg = true -> action_number act = Some a ->
      obj_step V s (OSynth SInit nid def args tg act) =
      (add_node s (Some (mkNode (PInt nid) NSynth)),
-      [SMsg (PStr "/s_new" :: PStr def :: PInt nid :: PInt a :: target_id s tg :: oal s (args_or_empty args))], None)) /\
+      [SMsg (PStr "/s_new" :: PStr def :: PInt nid :: PInt a :: target_id s tg :: oal (v_dict_brackets V) s (args_or_empty args))], None)) /\
   (forall V s nid def args tg act a, target_ok s tg = true -> action_number act = Some a ->
      obj_step V s (OSynth SPaused nid def args tg act) =
      (add_node s (Some (mkNode (PInt nid) NSynth)),
-      [SBundle PNone [PStr "/s_new" :: PStr def :: PInt nid :: PInt a :: target_id s tg :: oal s (args_or_empty args);
+      [SBundle PNone [PStr "/s_new" :: PStr def :: PInt nid :: PInt a :: target_id s tg :: oal (v_dict_brackets V) s (args_or_empty args);
                       [PStr "/n_run"; PInt nid; PInt 0]]], None)) /\
   (forall V s addr frames chans bufnum c num, new_bufnum bufnum addr = Some num -> is_none frames = false ->
      exists s1, obj_step V s (OBufNew addr frames chans bufnum c true) =
@@ -210,9 +224,27 @@ Example free_all_example :
     ([WMsg ("/b_free", [AInt 0; AInt 0])], None) ].
 Proof. vm_compute. reflexivity. Qed.
 
+Example wf_example :
+  wf_ops 2 st0
+    [OGroup false 1000 TgNone (ActS "addToHead");
+     OBusNew false (Some 4) 2 None;
+     OBufNew (Some 0) (PInt 1024) (PInt 2) None (CFn "/b_query" []) true;
+     OSynth SInit 1001 "default"
+       (PList [PStr "freq"; PList [PInt 440; PTuple [PFlt (1 # 2); PBus 0]]; PDict [(PStr "buf", PBuf 0)]]) (TgNode 0) (ActS "tail");
+     OBindEnter;
+     ONodeSet 1 [PDict [(PStr "amp", PFlt (1 # 4)); (PStr "in", PMap 0)]];
+     ONodeSetn 1 [PInt 3; PList [PInt 1; PFlt (1 # 2)]; PStr "pan"; PInt 0];
+     ONodeMapn false 1 [PStr "freq"; PBus 0; PInt 2; PInt 7];
+     OBusSet 0 0 [PFlt (1 # 2); PInt 3];
+     OBufSetn 0 [PInt 0; PList [PInt 1; PInt 2; PInt 3]];
+     OBindExit;
+     OBufFree 0 CNone; OBufFree 0 CNone; OBufFreeAll] = true.
+Proof. vm_compute. reflexivity. Qed.
+
 Example chain_example : chain 0 [(0, 1); (1, 3); (8, 2)].
 Proof. simpl. repeat split; discriminate. Qed.
 
-Print Assumptions emitted_conform_partial.
+Print Assumptions emitted_conform.
+Print Assumptions ids_only_allocated.
 Print Assumptions bind_is_one_bundle_in_issue_order.
 Print Assumptions free_emits_each_owned_id_once_and_returns_it.
